@@ -558,5 +558,6 @@ func c05(x *mon.Ctx) {
 	x.Require("pck-crl-endpoint", 0, 10, 10)
 	x.Require("root-crl-endpoint", 0, 10, 10)
 	x.Require("distribution-points", 6, 6, 12)
+	stageEventsRevocationDefaultRoot(x)
 	x.Extra["exhaustive"] = true
 }
